@@ -1140,9 +1140,11 @@ class StateEngine(object):
                 #print()
 
                 # If has_terminated acknowledge the event and don't add the
-                # id to the event_ids list
+                # id to the event_ids list. The event of a nested Parallel or
+                # Map state is never added to that list, but it is dropped
+                # here too so it must be acknowledged as well.
+                self.event_dispatcher.acknowledge(id)
                 if state_type != "Parallel" and state_type != "Map":
-                    self.event_dispatcher.acknowledge(id)
                     event_ids[index] = None
 
                 self.check_pending_results(execution_arn)
